@@ -1174,3 +1174,305 @@ Proof.
     + apply InvO_quiet; [|quiet_obs]. destruct IO. constructor; assumption.
     + exact (Mono_refl s).
 Qed.
+
+(* ------------------------------------------------------------------ graceful stop *)
+(* after a stop only connections with an unanswered subscribe call are still open *)
+Definition inv_stop (s : st) : Prop :=
+  stopped s = true -> forall c cn, nth_error (conns s) c = Some cn -> c_open cn = true -> has_pending s c = true.
+
+Lemma settle_from_spec : forall s cs c,
+  length (fst (settle_from s c cs)) = length cs /\
+  (forall i cn cn', nth_error cs i = Some cn -> nth_error (fst (settle_from s c cs)) i = Some cn' ->
+     (cn' = cn /\ (c_open cn = true -> has_pending s (c + i) = true)) \/ (cn' = c_end cn /\ c_open cn = true)) /\
+  (forall ob, In ob (snd (settle_from s c cs)) -> (exists c' f, ob = OFrameOut c' f) \/ (exists c', ob = OConnEnd c')).
+Proof.
+  intros s cs. induction cs as [|cn0 cs IH]; intro c; cbn [settle_from].
+  - cbn [fst snd]. split; [reflexivity|]. split.
+    + intros i cn cn' H. destruct i; discriminate.
+    + intros ob [].
+  - specialize (IH (S c)). destruct (settle_from s (S c) cs) as [rest' o'] eqn:E. cbn [fst snd] in IH.
+    destruct IH as [IH1 [IH2 IH3]].
+    destruct (c_open cn0 && negb (has_pending s c)) eqn:G; cbn [fst snd length].
+    + apply andb_true_iff in G. destruct G as [G1 G2]. split; [congruence|]. split.
+      * intros [|i] cn cn' H H'; cbn in H, H'.
+        -- inversion H; inversion H'; subst. right. auto.
+        -- replace (c + S i) with (S c + i) by lia. eapply IH2; eassumption.
+      * intros ob Hin. apply in_app_or in Hin. destruct Hin as [Hin | [<- | Hin]].
+        -- apply in_map_iff in Hin. destruct Hin as [f [<- _]]. left. eauto.
+        -- right. eauto.
+        -- auto.
+    + split; [congruence|]. split; [|exact IH3].
+      intros [|i] cn cn' H H'; cbn in H, H'.
+      * inversion H; inversion H'; subst. left. split; [reflexivity|]. intro Ho. rewrite Ho in G. cbn in G.
+        rewrite Nat.add_0_r. destruct (has_pending s c); [reflexivity | discriminate].
+      * replace (c + S i) with (S c + i) by lia. eapply IH2; eassumption.
+Qed.
+
+Lemma c_end_rel : forall cn, conn_rel cn (c_end cn).
+Proof.
+  intro cn. repeat split; auto; try discriminate. exists []. split; [|intros ? []]. unfold sent, c_end. cbn. rewrite !app_nil_r. reflexivity.
+Qed.
+
+Lemma settle_inv : forall s o, Inv s -> InvO s o ->
+  Inv (fst (settle s)) /\ InvO (fst (settle s)) (o ++ snd (settle s)) /\ Mono s (fst (settle s)) /\ inv_stop (fst (settle s)).
+Proof.
+  intros s o I IO. unfold settle. destruct (stopped s) eqn:Est.
+  - destruct (settle_from_spec s (conns s) 0) as [S1 [S2 S3]]. destruct (settle_from s 0 (conns s)) as [cs o2] eqn:E.
+    cbn [fst snd] in *.
+    assert (R : conns_rel (conns s) cs).
+    { split; [assumption|]. intros c cn cn' H H'. destruct (S2 _ _ _ H H') as [[-> _] | [-> _]]; [apply conn_rel_refl | apply c_end_rel]. }
+    assert (Q : obs_quiet s o2).
+    { split.
+      - intro h2. apply log_of_none. intros h k x ok Hin. apply S3 in Hin. destruct Hin as [[? [? Hx]] | [? Hx]]; discriminate.
+      - intros h k x ok Hin. apply S3 in Hin. destruct Hin as [[? [? Hx]] | [? Hx]]; discriminate. }
+    destruct (conns_inv s o cs o2 I IO R Q) as [I2 [IO2 M2]].
+    split; [exact I2|]. split; [exact IO2|]. split; [exact M2|]. unfold inv_stop.
+    intros _ c cn' Hc Ho. cbn in Hc. destruct (nth_error (conns s) c) as [cn|] eqn:Hc0.
+    + destruct (S2 _ _ _ Hc0 Hc) as [[-> Hp] | [-> _]]; [|discriminate]. exact (Hp Ho).
+    + apply nth_error_None in Hc0. assert (c < length cs) by (apply nth_error_Some; congruence). lia.
+  - cbn [fst snd]. rewrite app_nil_r. split; [exact I|]. split; [exact IO|]. split; [apply Mono_refl|].
+    intro H. congruence.
+Qed.
+
+Lemma step_inv : forall s o a, Inv s -> InvO s o ->
+  Inv (fst (step s a)) /\ InvO (fst (step s a)) (o ++ snd (step s a)) /\ Mono s (fst (step s a)) /\ inv_stop (fst (step s a)).
+Proof.
+  intros s o a I IO. unfold step, step_gen.
+  destruct (step_core_inv s o a I IO) as [I1 [IO1 M1]]. destruct (step_core false s a) as [s1 o1]. cbn [fst snd] in *.
+  destruct (settle_inv s1 (o ++ o1) I1 IO1) as [I2 [IO2 [M2 St]]]. destruct (settle s1) as [s2 o2]. cbn [fst snd] in *.
+  rewrite <- app_assoc in IO2. split; [exact I2|]. split; [exact IO2|]. split; [exact (Mono_trans _ _ _ M1 M2) | exact St].
+Qed.
+
+(* ------------------------------------------------------------------ every trace *)
+Lemma init_inv : forall caps base meth, Inv (init caps base meth) /\ InvO (init caps base meth) [] /\ inv_stop (init caps base meth).
+Proof.
+  intros caps base meth. split; [|split].
+  - constructor; unfold init; cbn [subs conns table id_base notif_meth].
+    + intros [|h] b H; discriminate.
+    + intro k. split; [intros [] | intros [[|h] [b [H _]]]; discriminate].
+    + intros c cn H. rewrite nth_error_map' in H. destruct (nth_error caps c); [|discriminate]. inversion H. cbn. unfold count_on. cbn. lia.
+    + intros c cn f H Hf. rewrite nth_error_map' in H. destruct (nth_error caps c); [|discriminate]. inversion H; subst. destruct Hf.
+    + intros [|h] b H; discriminate.
+    + intros c cn H. rewrite nth_error_map' in H. destruct (nth_error caps c); [|discriminate]. inversion H; subst.
+      intros pre f post E. cbn in E. destruct pre; discriminate.
+    + intros [|h] b cn H; discriminate.
+  - constructor; cbn.
+    + intros [|h] b cn H; discriminate.
+    + intros ? ? ? ? [].
+    + intros [|h] b H; discriminate.
+  - intro H. discriminate.
+Qed.
+
+Lemma run_snoc : forall stp s tr a, run_gen stp s (tr ++ [a]) = run_step stp (run_gen stp s tr) a.
+Proof. intros. unfold run_gen. rewrite fold_left_app. reflexivity. Qed.
+
+Definition reach (caps : list nat) (base meth : N) (tr : list act) : st * list obs := run (init caps base meth) tr.
+
+Lemma run_inv_from : forall s0 o0 tr, Inv s0 -> InvO s0 o0 -> inv_stop s0 ->
+  let r := fold_left (run_step step) tr (s0, o0) in Inv (fst r) /\ InvO (fst r) (snd r) /\ inv_stop (fst r) /\ Mono s0 (fst r).
+Proof.
+  intros s0 o0 tr. revert s0 o0. induction tr as [|a tr IH]; intros s0 o0 I IO St; cbn [fold_left].
+  - cbn. split; [exact I|]. split; [exact IO|]. split; [exact St | apply Mono_refl].
+  - assert (E : run_step step (s0, o0) a = (fst (step s0 a), o0 ++ snd (step s0 a))).
+    { unfold run_step. cbn [fst snd]. destruct (step s0 a). reflexivity. }
+    rewrite E. destruct (step_inv s0 o0 a I IO) as [I1 [IO1 [M1 St1]]].
+    destruct (IH _ _ I1 IO1 St1) as [I2 [IO2 [St2 M2]]].
+    split; [exact I2|]. split; [exact IO2|]. split; [exact St2 | exact (Mono_trans _ _ _ M1 M2)].
+Qed.
+
+Lemma reach_inv : forall caps base meth tr,
+  Inv (fst (reach caps base meth tr)) /\ InvO (fst (reach caps base meth tr)) (snd (reach caps base meth tr)) /\
+  inv_stop (fst (reach caps base meth tr)).
+Proof.
+  intros. destruct (init_inv caps base meth) as [I [IO St]].
+  destruct (run_inv_from _ _ tr I IO St) as [I2 [IO2 [St2 _]]]. auto.
+Qed.
+
+(* ------------------------------------------------------------------ C04: lemmas behind the theorems *)
+Lemma settle_subs : forall s, subs (fst (settle s)) = subs s /\ table (fst (settle s)) = table s /\ stopped (fst (settle s)) = stopped s.
+Proof. intro s. unfold settle. destruct (stopped s) eqn:E; [destruct (settle_from s 0 (conns s)) | ]; cbn; auto. Qed.
+
+Lemma settle_from_id : forall s cs c,
+  (forall i cn, nth_error cs i = Some cn -> c_open cn = true -> has_pending s (c + i) = true) ->
+  settle_from s c cs = (cs, []).
+Proof.
+  intros s cs. induction cs as [|cn cs IH]; intros c H; cbn [settle_from]; [reflexivity|].
+  rewrite IH by (intros i cn' Hi Ho; replace (S c + i) with (c + S i) by lia; apply (H (S i) cn'); assumption).
+  assert (G : c_open cn && negb (has_pending s c) = false).
+  { destruct (c_open cn) eqn:Eo; [|reflexivity]. cbn. specialize (H 0 cn eq_refl Eo). rewrite Nat.add_0_r in H. rewrite H. reflexivity. }
+  rewrite G. reflexivity.
+Qed.
+
+Lemma settle_id : forall s, inv_stop s -> settle s = (s, []).
+Proof.
+  intros s St. unfold settle. destruct (stopped s) eqn:E; [|reflexivity].
+  rewrite settle_from_id; [destruct s; reflexivity|]. intros i cn Hi Ho. cbn. apply (St E); assumption.
+Qed.
+
+Lemma reach_app : forall caps base meth tr1 tr2,
+  reach caps base meth (tr1 ++ tr2) = fold_left (run_step step) tr2 (reach caps base meth tr1).
+Proof. intros. unfold reach, run, run_gen. apply fold_left_app. Qed.
+
+Lemma reach_snoc : forall caps base meth tr a,
+  reach caps base meth (tr ++ [a]) =
+  (fst (step (fst (reach caps base meth tr)) a), snd (reach caps base meth tr) ++ snd (step (fst (reach caps base meth tr)) a)).
+Proof. intros. rewrite reach_app. cbn. unfold run_step. destruct (step _ a). reflexivity. Qed.
+
+Lemma own_id_and_method : forall caps base meth tr c cn f,
+  let s := fst (reach caps base meth tr) in
+  nth_error (conns s) c = Some cn -> In f (sent cn) -> is_notif f = true ->
+  exists h b, nth_error (subs s) h = Some b /\ s_conn b = c /\ frame_sid f = s_id b /\ frame_meth f = s_meth b /\
+              s_meth b = notif_meth s /\ s_id b = (id_base s + N.of_nat h)%N /\ s_state b = SActive.
+Proof.
+  intros caps base meth tr c cn f s Hc Hf Hn. destruct (reach_inv caps base meth tr) as [I _].
+  destruct (inv_frames _ I _ _ _ Hc Hf Hn) as [h [b [Hb [E1 [E2 [E3 E4]]]]]].
+  destruct (inv_sub _ I _ _ Hb) as [A1 [A2 _]]. exists h, b. repeat split; auto.
+Qed.
+
+Lemma naa_prefix : forall l1 l2, notif_after_accept (l1 ++ l2) -> notif_after_accept l1.
+Proof. intros l1 l2 H pre f post E Hn. apply (H pre f (post ++ l2)); [|assumption]. rewrite E, <- app_assoc. reflexivity. Qed.
+
+Lemma after_accept : forall caps base meth tr c cn,
+  nth_error (conns (fst (reach caps base meth tr))) c = Some cn ->
+  notif_after_accept (sent cn) /\ notif_after_accept (c_wire cn).
+Proof.
+  intros caps base meth tr c cn Hc. destruct (reach_inv caps base meth tr) as [I _].
+  pose proof (inv_order _ I _ _ Hc) as H. split; [assumption | eapply naa_prefix; exact H].
+Qed.
+
+Lemma fifo_per_subscription : forall caps base meth tr h b cn,
+  let s := fst (reach caps base meth tr) in
+  nth_error (subs s) h = Some b -> nth_error (conns s) (s_conn b) = Some cn ->
+  filter_map (plain_item (s_id b)) (sent cn) = log_of h (snd (reach caps base meth tr)) /\
+  exists pending, log_of h (snd (reach caps base meth tr)) = filter_map (plain_item (s_id b)) (c_wire cn) ++ pending.
+Proof.
+  intros caps base meth tr h b cn s Hb Hc. destruct (reach_inv caps base meth tr) as [_ [IO _]].
+  pose proof (io_fifo _ _ IO _ _ _ Hb Hc) as E. split; [assumption|].
+  exists (filter_map (plain_item (s_id b)) (c_queue cn)). rewrite <- E. unfold sent. apply filter_map_app.
+Qed.
+
+Lemma rejected_is_silent : forall caps base meth tr h b,
+  let s := fst (reach caps base meth tr) in
+  nth_error (subs s) h = Some b -> ~ accepted b ->
+  (forall c cn f, nth_error (conns s) c = Some cn -> In f (sent cn) -> is_notif f = true -> frame_sid f <> s_id b) /\
+  s_ret b = None.
+Proof.
+  intros caps base meth tr h b s Hb Na. destruct (reach_inv caps base meth tr) as [I _]. split.
+  - intros c cn f Hc Hf Hn E. destruct (inv_frames _ I _ _ _ Hc Hf Hn) as [h0 [b0 [H0 [_ [E2 [_ E4]]]]]].
+    assert (h0 = h) by (eapply ids_inj; eauto; congruence). subst h0. fold s in H0. rewrite Hb in H0. inversion H0; subst b0.
+    apply Na. right. assumption.
+  - destruct (inv_sub _ I _ _ Hb) as [_ [_ [_ [_ [A5 _]]]]]. apply A5. intro E. apply Na. right. assumption.
+Qed.
+
+Lemma count_closing_ex : forall sid l, 1 <= count_closing sid l -> exists f, In f l /\ closing_of sid f = true.
+Proof.
+  intros sid l. unfold count_closing. induction l as [|f l IH]; cbn; [lia|].
+  destruct (closing_of sid f) eqn:E; [intros _; exists f; auto|]. intro H. destruct (IH H) as [g [Hg Eg]]. exists g. auto.
+Qed.
+
+Lemma close_notification_once : forall caps base meth tr h b cn,
+  let s := fst (reach caps base meth tr) in
+  nth_error (subs s) h = Some b -> nth_error (conns s) (s_conn b) = Some cn ->
+  count_closing (s_id b) (sent cn) <= 1 /\
+  (1 <= count_closing (s_id b) (sent cn) -> s_state b = SActive /\ s_returned b = true) /\
+  (forall c2 cn2, c2 <> s_conn b -> nth_error (conns s) c2 = Some cn2 -> count_closing (s_id b) (sent cn2) = 0).
+Proof.
+  intros caps base meth tr h b cn s Hb Hc. destruct (reach_inv caps base meth tr) as [I _]. fold s in I.
+  destruct (inv_closing _ I _ _ _ Hb Hc) as [C1 C2].
+  assert (Own : forall c2 cn2 f, nth_error (conns s) c2 = Some cn2 -> In f (sent cn2) -> is_notif f = true -> frame_sid f = s_id b ->
+            c2 = s_conn b /\ s_state b = SActive).
+  { intros c2 cn2 f H2 Hf Hn E. destruct (inv_frames _ I _ _ _ H2 Hf Hn) as [h0 [b0 [H0 [E1 [E2 [_ E4]]]]]].
+    assert (h0 = h) by (eapply ids_inj; eauto; congruence). subst h0. rewrite Hb in H0. inversion H0; subst b0. auto. }
+  split; [lia|]. split.
+  - intro Hge. split; [|auto]. destruct (count_closing_ex _ _ Hge) as [f [Hf Ef]]. unfold closing_of in Ef.
+    apply andb_true_iff in Ef. destruct Ef as [Ef E3]. apply andb_true_iff in Ef. destruct Ef as [E1 _]. apply N.eqb_eq in E3.
+    eapply Own; eauto.
+  - intros c2 cn2 Ne H2. apply count_closing_zero. intros f Hf Hn E. destruct (Own _ _ _ H2 Hf Hn E). contradiction.
+Qed.
+
+(* what closes a subscription: a successful unsubscribe naming it, the end of its connection, the server stopping
+   (at once when the connection has no unanswered subscribe call) *)
+Definition closes (s : st) (a : act) (b : sub) : Prop :=
+  (exists req, a = UnsubscribeCall (s_conn b) req (s_id b) /\ In (OUnsubAnswer (s_conn b) req (s_id b) true) (snd (step s a)))
+  \/ a = ConnDrop (s_conn b)
+  \/ (a = ServerStop /\ has_pending s (s_conn b) = false).
+
+Lemma closes_closed : forall s o a h b, Inv s -> InvO s o -> inv_stop s ->
+  nth_error (subs s) h = Some b -> s_state b = SActive -> closes s a b ->
+  exists b1, nth_error (subs (fst (step s a))) h = Some b1 /\ s_state b1 = SActive /\ sink_closed (fst (step s a)) b1 = true.
+Proof.
+  intros s o a h b I IO St Hb Ha Hcl.
+  destruct (step_inv s o a I IO) as [I1 [_ [[M1 M2] St1]]].
+  destruct (M2 _ _ Hb) as [b1 [Hb1 [[S1 [S2 _]] Hact]]]. destruct (Hact Ha) as [Ha1 Hu1].
+  exists b1. split; [assumption|]. split; [assumption|]. unfold sink_closed. rewrite S1.
+  destruct Hcl as [[req [-> Hobs]] | [-> | [-> Hnp]]].
+  - (* successful unsubscribe: the liveness channel of b is closed in that step *)
+    apply orb_true_iff. right.
+    unfold step, step_gen in Hb1, Hobs. cbn [step_core] in Hb1, Hobs.
+    destruct (nth_error (conns s) (s_conn b)) as [cn|] eqn:Hc; [|destruct Hobs].
+    destruct (c_open cn && negb (stopped s)); [|destruct Hobs].
+    match type of Hb1 with context [settle ?x] => pose proof (settle_subs x) as [Es _]; destruct (settle x) as [s2 o2] end.
+    cbn [fst snd] in *. rewrite Es in Hb1. cbn in Hb1. rewrite nth_error_map', Hb in Hb1. cbn in Hb1. inversion Hb1.
+    unfold key_of. rewrite (proj2 (key_eqb_eq (s_conn b, s_id b) (s_conn b, s_id b)) eq_refl), Ha. reflexivity.
+  - (* the connection ended *)
+    apply orb_true_iff. left. apply negb_true_iff. destruct (conn_open (fst (step s (ConnDrop (s_conn b)))) (s_conn b)) eqn:E; [|reflexivity].
+    exfalso. unfold step, step_gen in E. cbn [step_core] in E.
+    destruct (nth_error (conns s) (s_conn b)) as [cn|] eqn:Hc.
+    + destruct (c_open cn) eqn:Eo.
+      * match type of E with context [settle ?x] =>
+          assert (Ix : Inv x /\ InvO x (o ++ [OAck]) /\ Mono s x) end.
+        { pose proof (step_core_inv s o (ConnDrop (s_conn b)) I IO) as P. cbn [step_core] in P. rewrite Hc, Eo in P. exact P. }
+        destruct Ix as [Ix [IOx _]]. destruct (settle_inv _ _ Ix IOx) as [_ [_ [[Mx _] _]]].
+        match type of E with context [settle ?x] => destruct (settle x) as [s2 o2] end. cbn [fst snd] in *.
+        apply Mx in E. unfold conn_open, upd_conn in E. cbn in E. rewrite nth_error_upd_same with (b := cn) in E by assumption. discriminate.
+      * rewrite (settle_id s St) in E. cbn in E. unfold conn_open in E. rewrite Hc in E. congruence.
+    + rewrite (settle_id s St) in E. cbn in E. unfold conn_open in E. rewrite Hc in E. discriminate.
+  - (* server stop on a connection without unanswered subscribe call *)
+    apply orb_true_iff. left. apply negb_true_iff. destruct (conn_open (fst (step s ServerStop)) (s_conn b)) eqn:E; [|reflexivity].
+    exfalso. unfold conn_open in E. destruct (nth_error (conns (fst (step s ServerStop))) (s_conn b)) as [cn1|] eqn:Hc1; [|discriminate].
+    assert (Hs : stopped (fst (step s ServerStop)) = true /\ subs (fst (step s ServerStop)) = subs s).
+    { unfold step, step_gen. cbn [step_core]. destruct (stopped s) eqn:Est.
+      - rewrite (settle_id s St). cbn. auto.
+      - destruct (settle_subs (set_stopped s)) as [Es [_ Est2]]. destruct (settle (set_stopped s)) as [s2 o2]. cbn [fst snd] in *. auto. }
+    destruct Hs as [Hs1 Hs2]. pose proof (St1 Hs1 _ _ Hc1 E) as Hp. unfold has_pending in Hp, Hnp. rewrite Hs2 in Hp. congruence.
+Qed.
+
+Lemma closed_fails : forall s h b k x, inv_stop s -> nth_error (subs s) h = Some b -> sink_closed s b = true -> In k (s_sinks b) ->
+  step s (IsClosed h k) = (s, [OClosed h k true]) /\
+  (~ In k (map fst (s_inflight b)) -> step s (SendCheck h k x) = (s, [OSendResult h k x false])).
+Proof.
+  intros s h b k x St Hb Hc Hk. apply memN_In in Hk. unfold step, step_gen. cbn [step_core]. rewrite Hb, Hk, Hc. cbn [andb].
+  rewrite (settle_id s St). split; [reflexivity|]. intro Hn.
+  destruct (memN k (map fst (s_inflight b))) eqn:E; [apply memN_In in E; contradiction|]. cbn [negb]. reflexivity.
+Qed.
+
+Lemma send_after_close_fails : forall caps base meth tr1 a tr2 h b,
+  let s0 := fst (reach caps base meth tr1) in
+  let s2 := fst (reach caps base meth (tr1 ++ a :: tr2)) in
+  nth_error (subs s0) h = Some b -> s_state b = SActive -> closes s0 a b ->
+  exists b2, nth_error (subs s2) h = Some b2 /\ s_state b2 = SActive /\ sink_closed s2 b2 = true /\
+    forall k x, In k (s_sinks b2) ->
+      step s2 (IsClosed h k) = (s2, [OClosed h k true]) /\
+      (~ In k (map fst (s_inflight b2)) -> step s2 (SendCheck h k x) = (s2, [OSendResult h k x false])).
+Proof.
+  intros caps base meth tr1 a tr2 h b s0 s2 Hb Ha Hcl.
+  destruct (reach_inv caps base meth tr1) as [I [IO St]]. fold s0 in I, St.
+  destruct (closes_closed s0 _ a h b I IO St Hb Ha Hcl) as [b1 [Hb1 [Ha1 Hc1]]].
+  destruct (step_inv s0 _ a I IO) as [I1 [IO1 [_ St1]]].
+  assert (E : reach caps base meth (tr1 ++ a :: tr2) =
+              fold_left (run_step step) tr2 (fst (step s0 a), snd (reach caps base meth tr1) ++ snd (step s0 a))).
+  { replace (tr1 ++ a :: tr2) with ((tr1 ++ [a]) ++ tr2) by (rewrite <- app_assoc; reflexivity).
+    rewrite reach_app, reach_snoc. reflexivity. }
+  destruct (run_inv_from _ _ tr2 I1 IO1 St1) as [_ [_ [St2 [M2a M2b]]]]. rewrite <- E in St2, M2a, M2b. fold s2 in St2, M2a, M2b.
+  destruct (M2b _ _ Hb1) as [b2 [Hb2 [[S1 _] Hact]]]. destruct (Hact Ha1) as [Ha2 Hu2].
+  assert (Hc2 : sink_closed s2 b2 = true).
+  { unfold sink_closed in *. rewrite S1. apply orb_true_iff in Hc1. apply orb_true_iff. destruct Hc1 as [Hc1 | Hc1].
+    - left. apply negb_true_iff in Hc1. apply negb_true_iff. destruct (conn_open s2 (s_conn b1)) eqn:Eo; [|reflexivity].
+      apply M2a in Eo. congruence.
+    - right. auto. }
+  exists b2. split; [assumption|]. split; [assumption|]. split; [assumption|].
+  intros k x Hk. eapply closed_fails; eassumption.
+Qed.
+
+Lemma stop_closes_idle : forall caps base meth tr, inv_stop (fst (reach caps base meth tr)).
+Proof. intros. apply reach_inv. Qed.
